@@ -7,3 +7,4 @@ Lemma chk_ranges_unique_pos_shipped : chk_ranges_unique_pos T0 = true. Proof. vm
 Lemma chk_ranges_keyed_ascending_shipped : chk_ranges_keyed_ascending T0 = true. Proof. vm_compute. reflexivity. Qed.
 Lemma chk_ranges_distinct_families_shipped : chk_ranges_distinct_families T0 = true. Proof. vm_compute. reflexivity. Qed.
 Lemma chk_ranges_complete_shipped : chk_ranges_complete T0 = true. Proof. vm_compute. reflexivity. Qed.
+Lemma chk_plus_api_shipped : chk_plus_api T0 = true. Proof. vm_compute. reflexivity. Qed.
